@@ -181,6 +181,14 @@ const c08Probe = `{namespace probe}
 <{$name}{$extra ?: ''}{if $u}.{/if}>
 {/template}
 
+/**
+ * @param? u
+ * @param? e
+ */
+{template .keys}
+{foreach $k in keys($u)}{$k}={$u[$k]};{/foreach}|{foreach $k in keys(augmentMap($u, $e))}{$k},{/foreach}|{length(keys(['p': $u.zz.y, 'q': $e.zz.y, 'r': $u.name.x.y]))}
+{/template}
+
 /** @param visits */
 {template .ok}
 {let $d}Hello {/let}{$d}world{call .wrap}{param body}b{/param}{/call}
@@ -272,7 +280,7 @@ func directC08(g *G, rep *Report) {
 			tmpls = append(tmpls, f.tmpls...)
 		}
 		tmpls = append(tmpls, &gTemplate{ns: "probe", short: "blk"}, &gTemplate{ns: "probe", short: "ok"}, &gTemplate{ns: "probe", short: "blk"}, &gTemplate{ns: "probe", short: "ok"},
-			&gTemplate{ns: "probe", short: "calls"}, &gTemplate{ns: "probe", short: "calls"}, &gTemplate{ns: "probe", short: "show"})
+			&gTemplate{ns: "probe", short: "calls"}, &gTemplate{ns: "probe", short: "calls"}, &gTemplate{ns: "probe", short: "show"}, &gTemplate{ns: "probe", short: "keys"}, &gTemplate{ns: "probe", short: "keys"})
 		var datas []data.Map
 		for _, t := range tmpls {
 			datas = append(datas, toData(bg.dataFor(t)))
@@ -282,7 +290,9 @@ func directC08(g *G, rep *Report) {
 		datas = append(datas,
 			toData(map[string]interface{}{"u": map[string]interface{}{"name": "Ann", "inner": map[string]interface{}{"name": "In"}}, "e": map[string]interface{}{}}),
 			toData(map[string]interface{}{"u": map[string]interface{}{"name": "Bob", "inner": map[string]interface{}{}}, "e": map[string]interface{}{"name": "E", "k": int64(1)}}),
-			toData(map[string]interface{}{"u": map[string]interface{}{}, "e": map[string]interface{}{}}))
+			toData(map[string]interface{}{"u": map[string]interface{}{}, "e": map[string]interface{}{}}),
+			// several keys: keys() and a map literal whose values fail must behave the same on every render
+			toData(map[string]interface{}{"u": map[string]interface{}{"name": "Ann", "b": int64(2), "c": int64(3), "d": int64(4), "e": int64(5), "f": int64(6)}, "e": map[string]interface{}{"x": int64(1), "y": int64(2), "z": int64(3)}}))
 		datas = append(datas, data.Map{}, toData(map[string]interface{}{"i": "str", "s": int64(5), "l": "notalist", "m": []interface{}{int64(1)}, "b": nil, "f": "x", "n": int64(1)}))
 		ij := toData(map[string]interface{}{"s": "ij", "n": int64(2), "m": map[string]interface{}{"a": int64(1)}})
 		tofu := soyhtml.NewTofu(reg)
@@ -354,6 +364,26 @@ func directC08(g *G, rep *Report) {
 				}
 			}
 			lastKey = key
+		}
+		// keys() of a map with several keys, and a map literal several of whose values fail: ten renders in a row
+		{
+			kd := toData(map[string]interface{}{"u": map[string]interface{}{"name": "Ann", "b": int64(2), "c": int64(3), "d": int64(4), "e": int64(5), "f": int64(6)}, "e": map[string]interface{}{"x": int64(1), "y": int64(2), "z": int64(3)}})
+			var firstOut string
+			for k := 0; k < 10; k++ {
+				var buf bytes.Buffer
+				cls := safely(func() error { return tofu.NewRenderer("probe.keys").Execute(&buf, kd) })
+				var errTxt string
+				safely(func() error { e := tofu.NewRenderer("probe.keys").Execute(&bytes.Buffer{}, kd); errTxt = errText(e); return e })
+				out := cls + ":" + buf.String() + ":" + errTxt
+				rep.Evaluations++
+				if k == 0 {
+					firstOut = out
+				} else if out != firstOut {
+					rep.Violations = append(rep.Violations, Viol{Key: "c08-history-dependent:keys:" + cfg, What: "the same template (keys() of a six-key map, a map literal with several failing values) with the same data rendered differently on a later render",
+						Req: req("c08hist", encSources(fs)), Note: fmt.Sprintf("render %d of probe.keys", k), Impl: out, Want: firstOut})
+					break
+				}
+			}
 		}
 		if recur {
 			rep.DistinctNT++
